@@ -25,7 +25,9 @@ rule = ("scripts = 'g begin', ops, 'g end', one driver process per script; strea
         "child is assigned on that level; all old and new paths queried before and after); mpt::path::add/next/del; random "
         "histories over a 6-name pool with depth <=3, clear, and names/values across 255 bytes; stream 7: every path of <=4 (5) "
         "elements over {a,bb,ccc,empty} built with addchar/valid/add in both modes, advanced by 0..n-1 mpt_path_next calls "
-        "on the same object (offset > 0), then del + add of another element + walk; stream 6 (both parts): refused "
+        "on the same object (offset > 0), then del + add of another element + walk; string-backed paths (mpt_path_set of 1..4 "
+        "elements with changing names) advanced by 0..n mpt_path_next calls and then extended by 1..3 elements through "
+        "addchar/valid/add; stream 6 (both parts): refused "
         "assignments - an int32 value (no text form) and a path element of 65535/65536 bytes at every position - on paths "
         "with 0..3 missing elements through every front end (NULL config, private list, views on an inner element, a valued "
         "leaf and a missing base), existence of every prefix checked before and after; every output line lists ALL elements "
@@ -306,6 +308,20 @@ def _stream7(tier):
                         if n >= 4 and (e2 != "dd" or tier == "quick" and "" in es):
                             continue
                         lines.append("g rebuild %s 2e %s %d %s" % (mode, fmt(es), skip, hx(e2)))
+    # a path that refers to a plain string, advanced by next, then extended (the first added character moves the
+    # data to an own buffer); element names differ from line to line so that stale heap content cannot look right
+    k = 0
+    for n in range(1, 5):
+        for skip in range(0, n + 1):
+            for add in range(1, 4):
+                for rep in range(2 if tier == "quick" else 6):
+                    k += 1
+                    text = ".".join("%c%c%d" % (97 + (k + i) % 26, 97 + (3 * k + i) % 26, k) for i in range(n))
+                    els = ["%c%d%c" % (65 + (k + 5 * j) % 26, k, 97 + (k + j) % 26) * (1 + (k + j) % 3) for j in range(add)]
+                    lines.append("g extend 2e %s %d %s" % (hx(text), skip, fmt(els)))
+    for text, skip, els in (("", 0, ["a"]), ("", 1, ["a"]), ("a..b", 2, ["", "c"]), (".", 1, ["x"]), ("ab", 1, ["", ""]),
+                            ("x" * 300 + ".b", 1, ["c"]), ("a." + "y" * 300, 1, ["z" * 256, "q"])):
+        lines.append("g extend 2e %s %d %s" % (hx(text), skip, fmt(els)))
     for l1 in (254, 255, 256):
         for mode in ("s", "b"):
             lines.append("g rebuild %s 2e %s,%s,%s 1 %s" % (mode, hx("x" * l1), hx("ab"), hx("c"), hx("y" * (l1 - 1))))
@@ -462,6 +478,19 @@ class _XX:
                     out.append(("xref:%d" % j, ["x begin"] + pre + checks + ["x setl %s %d %s 2e %s" % (hx(ppre), n, hx(suf), hx("v"))]
                                 + checks + X._probe(PATHS) + ["x end"]))
                     j += 1
+        # 3c. element names around the inline capacity of an item identifier (and of a node identifier), at every depth
+        j = 0
+        for ln in list(range(6, 26)) + [30, 31, 32, 33, 62, 63, 64, 65]:
+            nm = ("n%02d" % ln + "abcdefghijklmnopqrstuvwxyz" * 3)[:ln]
+            for pat in ("%s", "a.%s", "%s.b", "a.%s.b", "%s.%s"):
+                pth = pat.replace("%s", nm)
+                lines = ["x begin", "x set %s 2e %s" % (hx(pth), hx("v1")), "x get %s 2e" % hx(pth), "x has %s 2e" % hx(pth),
+                         "x set %s 2e %s" % (hx(pth), hx("v2")), "x get %s 2e" % hx(pth),
+                         "x set %s 2e %s" % (hx(pth + ".k"), hx("v3")), "x get %s 2e" % hx(pth + ".k"),
+                         "x del %s 2e" % hx(pth), "x get %s 2e" % hx(pth), "x get %s 2e" % hx(pth + ".k"),
+                         "x set %s 2e %s" % (hx(pth), hx("v4")), "x get %s 2e" % hx(pth)] + X._probe(PATHS) + ["x end"]
+                out.append(("xlen:%d" % j, lines))
+                j += 1
         # 4. random histories over a small name pool (deep re-use), incl. long names and values
         r = gen.rng(id, tier, seed, "xx-random")
         names = ["a", "b", "c", "d", "e", ""]
